@@ -54,7 +54,10 @@ def gen_cases(tier: str, seed: int) -> List[Dict[str, Any]]:
                 for calls in ([2] if tier == "quick" else [1, 2, 3]):
                     rng = rng_for(seed, PROPERTY, "prof", i)
                     cases.append({"chain": chain, "fmt": fmt, "calls": calls, "seed": derive_seed(seed, PROPERTY, "m", mi) % (2**31),
-                                  "family": ["mlp", "residual", "attention", "mixed"][mi % 4]})
+                                  "family": ["mlp", "residual", "attention", "mixed"][mi % 4],
+                                  # histories in which every intermediate module is itself USED (forward+backward) before the next
+                                  # transform is applied to it
+                                  "call_intermediates": len(chain) >= 2 and rng.random() < 0.5})
                     i += 1
     return cases
 
@@ -155,11 +158,18 @@ def run_case(case: Dict[str, Any], ctx) -> None:
     lg.setLevel(logging.INFO)
     try:
         stages = [m]
+        mids: List[Any] = []
         try:
             for name in chain:
                 prev = stages[-1]
                 n_back = len(getattr(prev, "backends", []))
+                mid_before = None
+                if case.get("call_intermediates") and prev is not m:
+                    mid_before = run(prev, 1)[0]
+                    ctx.count("intermediate:called-before-next-transform")
                 nxt = apply(name, prev)
+                if mid_before is not None:
+                    mids.append((prev, mid_before, list(chain[:len(stages) - 1])))
                 if len(getattr(prev, "backends", [])) != n_back:
                     ctx.violation(f"{key}:earlier-module-backend-list-modified", f"applying {name} changed the backend list of its input module", chain=chain)
                 stages.append(nxt)
@@ -199,6 +209,13 @@ def run_case(case: Dict[str, Any], ctx) -> None:
         if any(not bits_equal(a, b) for a, b in zip(again["outs"], base["outs"])) or any(
                 (a is None) != (b is None) or (a is not None and not bits_equal(a, b)) for a, b in zip(again["grads"], base["grads"])):
             ctx.violation(f"{key}:original-outputs-or-gradients-changed", f"chain {chain}", source=src)
+        # ---- intermediates that were used before being transformed again are untouched as well ------
+        for mod_i, before_i, prefix in mids:
+            again_i = run(mod_i, 1)[0]
+            if _differs(again_i["outs"], again_i["grads"], before_i["outs"], before_i["grads"], 0.0):
+                ctx.violation(f"{key}:intermediate-module-changed-by-a-later-transform", f"module after {prefix} gives different results once {chain} was built and run",
+                              source=src)
+                break
         # ---- repeated calls identical ------------------------------------------------------------------------
         for r in runs[1:]:
             ctx.count("repeat:calls-compared")
@@ -272,7 +289,7 @@ def run_case(case: Dict[str, Any], ctx) -> None:
         lg.removeHandler(handler)
         lg.setLevel(old_level)
     if len(chain) >= 2:
-        ctx.nontrivial(f"{'>'.join(chain)}|{fmt}|{case['calls']}|{src}")
+        ctx.nontrivial(f"{'>'.join(chain)}|{fmt}|{case['calls']}|mid={case.get('call_intermediates')}|{src}")
     else:
         ctx.count("trivial:single-transform")
 
